@@ -15,6 +15,7 @@ type Expr struct {
 	Name string
 	Args []*Expr
 	Vars []QVar
+	Pats [][]*Expr
 	Line int
 	File string
 }
@@ -850,6 +851,22 @@ func (ps *parser) parseQuant() (*Expr, error) {
 			continue
 		}
 		break
+	}
+	for ps.isOp("{") {
+		ps.next()
+		var pat []*Expr
+		for !ps.isOp("}") {
+			x, err := ps.parseAdd()
+			if err != nil {
+				return nil, err
+			}
+			pat = append(pat, x)
+			if ps.isOp(",") {
+				ps.next()
+			}
+		}
+		ps.next()
+		q.Pats = append(q.Pats, pat)
 	}
 	if err := ps.expectOp("::"); err != nil {
 		return nil, err
